@@ -231,6 +231,64 @@ pub fn enumerate<V: Variant>(r: &mut Report, ctx: &Ctx, prop: &str) {
             },
         );
     }
+    let name = format!("edits-{}", V::NAME);
+    if ctx.want(&name) {
+        // insertions, deletions and wrappers: what a tolerant front end (trim, quotes, 0x, line ends) would let through
+        const INS: [u8; 18] = [b' ', b'\n', b'\r', b'\t', 0, b'0', b'F', b'a', b'T', b'1', b':', b'-', b'+', b'_', b'"', b'g', 0x80, 0xff];
+        let wrappers: [(&[u8], &[u8]); 12] = [
+            (b" ", b""), (b"", b" "), (b" ", b" "), (b"", b"\n"), (b"", b"\r\n"), (b"\"", b"\""), (b"0x", b""), (b"T1", b""), (b"", b"\0"),
+            (b"\xef\xbb\xbf", b""), (b"tlsh:", b""), (b"T1T1", b""),
+        ];
+        let npos = V::STRLEN as u64 + 1;
+        let total = 6 * (npos * INS.len() as u64 + npos + wrappers.len() as u64);
+        r.section(
+            &name,
+            "edits of the 6 well-formed base strings: one byte from an 18-byte class alphabet inserted at every position (both ends included), one byte deleted at every position, and 12 wrappers (leading / trailing blanks and line ends, quotes, 0x, a second T1, NUL, byte-order mark, a scheme prefix): every mode and entry point vs the reference parser (only a result that is again well-formed may be accepted); non-trivial = all",
+            &format!("6 bases x ({} positions x 18 insertions + {} deletions + 12 wrappers)", npos, npos),
+            true,
+            |s| {
+                s.acc = par_for(total, 256, |idx, acc| {
+                    let per_base = total / 6;
+                    let b = (idx / per_base) as usize;
+                    let k = idx % per_base;
+                    let st = base(b);
+                    let out: Vec<u8> = if k < npos * INS.len() as u64 {
+                        let (pos, c) = ((k / INS.len() as u64) as usize, INS[(k % INS.len() as u64) as usize]);
+                        if pos > st.len() {
+                            return;
+                        }
+                        let mut o = st[..pos].to_vec();
+                        o.push(c);
+                        o.extend_from_slice(&st[pos..]);
+                        o
+                    } else if k < npos * INS.len() as u64 + npos {
+                        let pos = (k - npos * INS.len() as u64) as usize;
+                        if pos >= st.len() {
+                            return;
+                        }
+                        let mut o = st.clone();
+                        o.remove(pos);
+                        o
+                    } else {
+                        let (pre, post) = wrappers[(k - npos * INS.len() as u64 - npos) as usize];
+                        [pre, &st[..], post].concat()
+                    };
+                    acc.evals += 1;
+                    acc.transitions += 7;
+                    acc.nontrivial += 1;
+                    match judge_parse::<V>(&out) {
+                        Ok(fp) => {
+                            acc.outcomes.insert(fp);
+                            if idx % 499 == 0 {
+                                acc.sample(idx, || json!({"variant": V::NAME, "string_hex": hex(&out), "byte_len": out.len()}));
+                            }
+                        }
+                        Err(e) => acc.fail(idx, &name, e, json!({"kind": "parse", "variant": V::NAME, "string": hex(&out), "property": prop})),
+                    }
+                });
+            },
+        );
+    }
     let name = format!("lengths-{}", V::NAME);
     if ctx.want(&name) {
         r.section(
